@@ -9,3 +9,11 @@ func setActiveSched(s *core.Sched) { activeSched = s }
 
 //go:norace
 func getActiveSched() *core.Sched { return activeSched }
+
+var innerYields bool
+
+//go:norace
+func setInnerYields(b bool) { innerYields = b }
+
+//go:norace
+func getInnerYields() bool { return innerYields }
